@@ -81,7 +81,7 @@ var plans = map[string]Plan{
 		Real: realBuild, Stub: stubBuild, Assume: buildAssume, QuickS: 45, ThoroughS: 900},
 	"C12": {Jobs: []Job{{World: "wbuild", Params: "max_targets=6", Share: 0.6}, {World: "wbuild", Params: "max_targets=7,force=alias+tags+tests+testonly+platforms", Share: 0.4}, {World: "wbuild", Params: "max_targets=10,long=1", Share: 0.25, ThoroughOnly: true}}, Level: "exploration", Rule: buildRule + " C12: executed commands are a subset of the model's selection closure, the number of selected targets logged by grog lies in [must, must+may], a platform-incompatible dependency aborts before any command.",
 		Real: realBuild, Stub: stubBuild, Assume: buildAssume, QuickS: 45, ThoroughS: 900},
-	"C13": {Jobs: []Job{{World: "wbuild", Params: "max_targets=6", Share: 0.4}, {World: "wbuild", Params: "max_targets=5,force=taint+flatnames+nocache-build+tags", Share: 0.35}, {World: "wbuild", Params: "load=minimal,max_targets=6,force=taint+nocache-build+tags", Share: 0.25}, {World: "wbuild", Params: "max_targets=10,long=1", Share: 0.25, ThoroughOnly: true}}, Level: "exploration", Rule: buildRule + " C13: tainted / no-cache / cache-disabled targets must execute, a consumed taint must not force a second execution, dependants only if outputs changed.",
+	"C13": {Jobs: []Job{{World: "wbuild", Params: "max_targets=6", Share: 0.3}, {World: "wbuild", Params: "max_targets=5,force=taint+flatnames+nocache-build+tags", Share: 0.25}, {World: "wbuild", Params: "max_targets=4,force=taint+extfail+checks", Share: 0.25}, {World: "wbuild", Params: "load=minimal,max_targets=6,force=taint+nocache-build+tags", Share: 0.2}, {World: "wbuild", Params: "max_targets=10,long=1", Share: 0.25, ThoroughOnly: true}}, Level: "exploration", Rule: buildRule + " C13: tainted / no-cache / cache-disabled targets must execute, a consumed taint must not force a second execution, dependants only if outputs changed.",
 		Real: realBuild, Stub: stubBuild, Assume: buildAssume, QuickS: 45, ThoroughS: 900},
 	"C14": {Jobs: []Job{{World: "wbuild", Params: "max_targets=6", Share: 0.6}, {World: "wbuild", Params: "load=minimal,max_targets=6", Share: 0.15}, {World: "wbuild", Params: "mode=faults,load=minimal,max_targets=4,force=timeouts+extfail+checks", Share: 0.25}, {World: "wbuild", Params: "max_targets=10,long=1", Share: 0.25, ThoroughOnly: true}}, Level: "exploration", Rule: buildRule + " C14: targets that exit non-zero, time out on the fake clock, omit a declared output or fail an output check are never reported successful; a failing check forces execution although a cached result exists.",
 		Real: realBuild, Stub: stubBuild, Assume: buildAssume, QuickS: 45, ThoroughS: 900},
@@ -93,7 +93,7 @@ var plans = map[string]Plan{
 		Real: append(realDag, realBuild...), Stub: append(stubDag, stubBuild...), Assume: buildAssume, QuickS: 50, ThoroughS: 900,
 	},
 	"C04": {
-		Jobs:  []Job{{World: "wdag", Params: "max_n=400", Share: 0.4}, {World: "wbuild", Params: "max_targets=6", Share: 0.15}, {World: "wbuild", Params: "mode=faults,max_targets=5", Share: 0.3}, {World: "wbuild", Params: "mode=faults,load=minimal,max_targets=5,force=extfail", Share: 0.15}},
+		Jobs:  []Job{{World: "wdag", Params: "max_n=400", Share: 0.35}, {World: "wbuild", Params: "max_targets=6", Share: 0.1}, {World: "wbuild", Params: "mode=faults,max_targets=5,force=dirs,damage=1", Share: 0.3}, {World: "wbuild", Params: "mode=faults,load=minimal,max_targets=5,force=extfail,damage=1", Share: 0.25}},
 		Level: "exploration",
 		Rule: "W-build fault runs: cache read faults at every depth of an output restore (target result, tree blob, k-th file blob), see C07 for the fault catalogue. same workloads as C03 plus external cancellation; violation classes: hang (no runnable task and no pending timer for 2h simulated, or step budget), panic in grog code, concurrent map access (write-window monitor = the interleavings on which the Go runtime throws), unresolved / inconsistent completion map on return. " +
 			"non-trivial and distinct as for C03",
